@@ -710,3 +710,34 @@ def spec_c19(tier, seed):
                    'rsocket.extensions.composite_metadata.CompositeMetadata.parse'],
         stubs=['S1', 'S2', 'S3', 'S6', 'S7 SimTransport', 'S8 recording route handlers and verifier'],
     )
+
+
+def spec_c20(tier, seed):
+    q = tier == 'quick'
+    ms = (0, 1, 2) if q else (0, 1, 2, 3, 4)
+    parts = [{'lib': l, 'm': m} for l in ('rx4', 'rx3') for m in ms]
+    return dict(
+        conds=[
+            Cond('c20_rx', 'c_client_stream', parts=parts, timeout=600),
+            Cond('c20_rx', 'c_client_channel_out', parts=parts, timeout=600),
+            Cond('c20_rx', 'c_client_single', parts=[{'lib': l} for l in ('rx4', 'rx3')], timeout=300),
+            Cond('c20_rx', 'c_handler_adapter', parts=parts, timeout=600),
+        ],
+        explanation='the ReactiveX (v4) and Rx (v3) client and handler adapters driven on the virtual loop and compared with what '
+                    'the core API would do, stated as the expected observer events / wire frames / delegate calls: inbound streams '
+                    'and channels (symbolic 31-bit request limit, peer holding M elements, three endings, disposal at every '
+                    'position), outbound channel direction (plain observable or back-pressure factory, symbolic credits, failure '
+                    'position), single-shot interactions, and the handler adapter (response / stream / channel with observer and '
+                    'limit_rate / fire-and-forget / metadata-push / setup reach the delegate with the same arguments).',
+        bounds=['element counts M in %s; request limit, credits, limit_rate 31-bit symbolic; error and disposal positions 0..M+1; both Rx versions' % (list(ms),)],
+        outside=['more than %d elements, observables that emit from other threads or with delays, schedulers other than the immediate/asyncio default' % max(ms)],
+        functions=['rsocket.reactivex.reactivex_client.ReactiveXClient.request_stream', 'rsocket.reactivex.reactivex_client.ReactiveXClient.request_channel',
+                   'rsocket.reactivex.reactivex_client.ReactiveXClient.request_response', 'rsocket.reactivex.from_rsocket_publisher.from_rsocket_publisher',
+                   'rsocket.reactivex.from_rsocket_publisher.RxSubscriber.on_next', 'rsocket.reactivex.from_rsocket_publisher.RxSubscriberFromObserver.on_next',
+                   'rsocket.reactivex.back_pressure_publisher.observable_to_publisher', 'rsocket.reactivex.back_pressure_publisher.from_async_event_iterator',
+                   'rsocket.reactivex.reactivex_handler_adapter.ReactivexHandlerAdapter.request_channel', 'rsocket.reactivex.reactivex_handler_adapter.ReactivexHandlerAdapter.on_metadata_push',
+                   'rsocket.rx_support.rx_rsocket.RxRSocket.request_stream', 'rsocket.rx_support.rx_rsocket.RxRSocket.request_channel',
+                   'rsocket.rx_support.from_rsocket_publisher.from_rsocket_publisher', 'rsocket.rx_support.back_pressure_publisher.observable_to_publisher',
+                   'rsocket.rx_support.rx_handler_adapter.RxHandlerAdapter.request_channel', 'rsocket.rx_support.rx_handler_adapter.RxHandlerAdapter.on_metadata_push'],
+        stubs=['S1', 'S2', 'S3', 'S6', 'S7 SimTransport', 'S8 recording observers/delegates', 'reactivex and Rx executed under the tracer'],
+    )
